@@ -13,6 +13,7 @@
 #include <math.h>
 #include <pthread.h>
 #include <sys/mman.h>
+#include <obstack.h>
 #include "mpir.h"
 #include "gmp-impl.h"
 
